@@ -353,7 +353,14 @@ static int run_replay(const std::string& file, const std::string& prop_override,
   ctx.want_desc = true;
   ctx.verbose = true;
   size_t used = 0;
-  set_crash_target(*p, file + ".crash");
+  {
+    std::string crash = file + ".crash";
+    if (const char* cd = std::getenv("VERIF_CRASH_DIR")) {
+      size_t sl = file.find_last_of('/');
+      crash = std::string(cd) + "/" + (sl == std::string::npos ? file : file.substr(sl + 1)) + ".crash";
+    }
+    set_crash_target(*p, crash);
+  }
   run_one(*p, tape, ctx, &used);
   std::printf("case: {%s}\n", ctx.desc.str().c_str());
   for (auto& k : ctx.known_hits) std::printf("known-finding region hit: %s (%s)\n", k.c_str(), ctx.known_detail.c_str());
